@@ -571,7 +571,20 @@ impl Database {
             ) {
                 Ok(current) if current.checked_add(inc).is_some() => {
                     let next = (current + inc).to_string();
-                    db.insert(key.clone(), Value::from(next.clone()));
+                    // Keep the key's history: a new Value would restart the version at 1
+                    // and forget that (and where) the key is already stored on disk
+                    let new_value = match db.get(&key.to_string()) {
+                        Some(old) => Value {
+                            value: next.clone(),
+                            version: old.version.saturating_add(1),
+                            opp_id: Databases::next_op_log_id(),
+                            state: old.get_update_value_sate(),
+                            value_disk_addr: old.value_disk_addr,
+                            key_disk_addr: old.key_disk_addr,
+                        },
+                        None => Value::from(next.clone()),
+                    };
+                    db.insert(key.clone(), new_value);
                     (next, -1)
                 }
                 _ => {
